@@ -86,10 +86,11 @@ def run(ctx):
             run_model = lambda mod: out_bits(mod(x)) + out_bits(mod(xq))
         else:
             run_model = lambda mod: out_bits(mod(x))
-        events = ["forward"] + [rng.choice(["forward", "calibrate", "freeze", "freeze", "to_cpu", "deepcopy"]) for _ in range(rng.randrange(2, 9))]
+        events = ["forward"] + [rng.choice(["forward", "calibrate", "freeze", "freeze", "to_cpu", "deepcopy", "freeze_one"]) for _ in range(rng.randrange(2, 9))]
         if "freeze" not in events:
             events.insert(rng.randrange(1, len(events) + 1), "freeze")
         frozen = False
+        any_frozen = False
         last = None           # output bits since the last event that may legitimately change outputs (calibrate)
         cfg = {"kind": kind, "weights": wq, "activations": aq, "dtype": str(dt), "events": events}
         ok = True
@@ -142,6 +143,15 @@ def run(ctx):
                                 slines.append(f"store09 {wq} {rows} {cols} {'none' if m.weight_group_size is None else m.weight_group_size}")
                                 sexpect.append(f"{payload} {nscales}")
                                 smeta.append(dict(cfg, module=name))
+                    elif ev == "freeze_one":
+                        # one quantized sub-module is frozen on its own (outputs unchanged); a later freeze(model) must still freeze the others
+                        qmods = [m_ for m_ in model.modules() if isinstance(m_, QModuleMixin)]
+                        before_out = run_model(model)
+                        rng.choice(qmods).freeze()
+                        any_frozen = True
+                        if run_model(model) != before_out:
+                            ctx.spec_failures.append(("C09:freeze-changes-outputs", dict(cfg, at=i, note="one sub-module")))
+                        last = before_out
                     elif ev == "to_cpu":
                         model.to("cpu")
                     elif ev == "deepcopy":
@@ -152,7 +162,7 @@ def run(ctx):
                         model = model2
             except Exception as e:  # noqa
                 sig = f"C09:{ev}-raises:{exc_name(e)}"
-                if ev == "deepcopy" and frozen and wq in ("qint2", "qint4"):
+                if ev == "deepcopy" and (frozen or any_frozen) and wq in ("qint2", "qint4"):
                     sig = "C09:deepcopy-of-frozen-lowbit-model-raises"
                 ctx.spec_failures.append((sig, dict(cfg, at=i, message=str(e)[:200])))
                 ok = False
